@@ -112,20 +112,22 @@ func cleanup(ctx *core.Ctx) {
 
 func Run(ctx *core.Ctx) {
 	ctx.SetRule("one case = one configuration of the real binary (secret-bearing flags given as flags, FORWARDER_* variables or " +
-		"config-file entries; log level/format/log-http mode; upstream proxy over http or https, site credentials, TLS/MITM/CA data: URIs) run twice with two " +
+		"config-file entries; log level/format; --log-http with a mode PER MODULE (proxy, api) in every written form of the flag, as flag, variable or config-file entry; upstream proxy over http or https, site credentials, TLS/MITM/CA data: URIs) run twice with two " +
 		"independent secret assignments. Kind run: driven with GET, CONNECT (intercepted when MITM is on), /configz, a 407 and a 502 exchange, then with " +
 		"GET and CONNECT/intercepted GET once per fault shape of the upstream proxy and of the origin (closed at accept, reset, closed after the request, " +
-		"truncated head, non-HTTP bytes, 407/401/403/502 with and without body, stall, refused). Upstream pac: --pac (path, file URL, data: URI, http URL, stdin) instead of " +
+		"truncated head, non-HTTP bytes, 407/401/403/502 with and without body, stall, refused), then with a drawn HISTORY (history.go): 14-17 bursts in a drawn order of exchanges that `errors` mode dumps by right " +
+		"(proxied 503 of the --credentials site, the proxy's own 502, an API 500 with the API's basic auth), 401/407 refusals and successful exchanges on the proxy and on the API server, from one client or 4/8 goroutines, alternating between the modules; " +
+		"every record is judged by the mode of ITS module and its own status (Model logRecord). Upstream pac: --pac (path, file URL, data: URI, http URL, stdin) instead of " +
 		"--proxy; the script answers PROXY/HTTP/HTTPS/SOCKS5 (scripted proxies, one of them by default: it takes the fault shapes), SOCKS/SOCKS4, unparsable entries, a script " +
 		"error, DIRECT and several entries per target host, --credentials has exact/*:port/host:*/*:* entries for the host:port of all those proxies, and every host class is " +
 		"asked for with each request kind. Kind startfail: one thing in the configuration makes the " +
 		"start-up fail after the values were read (mismatching or non-PEM key material, unparsable PAC, a rejected host/port/scheme after the user:password, " +
-		"duplicate credentials, occupied port, an inline data: value written in a form the decoder refuses or that is not taken for an inline value). " +
+		"duplicate credentials, occupied port, an inline data: value written in a form the decoder refuses, or a value that is no data: URI at all = a file name by definition (run, counted as outside the property). " +
 		"The TEXTUAL FORM of every inline data: value is drawn per value (layout.go): on one line, wrapped at 64/76 characters with LF or CR LF, with a final line break, one break, a " +
-		"leading break; in a config file either as an escaped string literal or verbatim in a YAML block scalar / TOML multi-line string; Ed25519 or RSA-4096 material. Non-trivial = at least one secret-bearing flag is set and the process served the requests / exited with status 1; " +
+		"leading break, the scheme spelled DATA: / Data: / dAtA:; in a config file either as an escaped string literal or verbatim in a YAML block scalar / TOML multi-line string; Ed25519 or RSA-4096 material. Non-trivial = at least one secret-bearing flag is set and the process served the requests / exited with status 1; " +
 		"distinct = distinct configurations")
-	ctx.Assume("C19: the theorems cover the configuration dump (start-up 'configuration:' lines, /configz), the 'using upstream proxy' line, the cert/key attributes of the debug record 'loading TLS certificate' and the two error texts that render a flag value (rejected flag value, --cacert-file without certificate) and the outcome of pacProxy on the string a PAC script returned (error texts, credentials merged into the selected proxy URL); every other log line, the request log and the error responses are covered by the search on the running binary only")
-	ctx.Assume("C19: the log lines the proxy writes about exchanges that fail because of a fault of the upstream proxy / origin are searched like the start-up log, except the header dumps of --log-http errors for 5xx exchanges (the property covers request log lines of successful exchanges)")
+	ctx.Assume("C19: the theorems cover the configuration dump (start-up 'configuration:' lines, /configz), the 'using upstream proxy' line, the cert/key attributes of the debug record 'loading TLS certificate' and the two error texts that render a flag value (rejected flag value, --cacert-file without certificate) and the outcome of pacProxy on the string a PAC script returned (error texts, credentials merged into the selected proxy URL) and WHICH fields a request-log record of a module carries under its mode (logRecord: nothing / method, URL, status / also the header fields), whatever the loggers handled before; the text of the request log lines, every other log line and the error responses are covered by the search on the running binary only")
+	ctx.Assume("C19: the log lines the proxy writes about exchanges that fail because of a fault of the upstream proxy / origin are searched like the start-up log, except the header dumps of --log-http errors for 5xx exchanges (the property covers request log lines of successful exchanges); during the history a record counts as such a dump only if ITS module runs in errors mode and ITS exchange was answered with 500 or more")
 	ctx.Assume("C19: a secret is searched literally, as base64 (std/url, padded/raw) of the password and of user:password, percent-encoded (query, path, userinfo, all bytes), as Go/JSON string literal, hex, and for data: payloads as written, as fragments, as decoded PEM lines and as ANY window of 24 characters of the base64 text or of the PEM body after removing white space, control characters, their escapes and percent triples from the output; other forms are caught only by the diff of two runs that differ in the secrets alone")
 	ctx.Assume("C19: flag table extracted syntactically (go/ast) from bind/*.go and command/run/*.go of the tree under verification: constructor name and presence of a redactor argument")
 	defer cleanup(ctx)
